@@ -12,48 +12,49 @@ Import ListNotations.
     or — if the function was cancelled while waiting on it — whatever its canceller made of it (CancelledError when
     the canceller does nothing).  In particular they depend neither on the arrival order nor on anything else the
     cancellation protocol does (status.deferred swapping, re-entrant resumption from inside cancel()). *)
-Theorem inline_matches_sync_partial : forall assign canc pre g sched r w,
-  run assign canc pre g sched = (Finished r, w) ->
+Theorem inline_matches_sync_partial : forall assign canc pre hold0 g sched r w,
+  run assign canc pre hold0 g sched = (Finished r, w) ->
   sync (eff assign canc (cancelled w)) g [] [] = (r, consumed w, own (seen w)).
 Proof.
-  intros assign canc pre g sched r w H.
-  rewrite <- (run_sync assign canc (cancelled w) pre g sched); rewrite H; [reflexivity | apply agrees_self].
+  intros assign canc pre hold0 g sched r w H.
+  rewrite <- (run_sync assign canc (cancelled w) pre hold0 g sched); rewrite H; [reflexivity | apply agrees_self].
 Qed.
 Print Assumptions inline_matches_sync_partial.
 
 (** while suspended, the part already executed is a prefix of that synchronous execution *)
-Theorem suspended_prefix_of_sync : forall assign canc pre g sched d k w,
-  run assign canc pre g sched = (Suspended d k, w) ->
+Theorem suspended_prefix_of_sync : forall assign canc pre hold0 g sched d k w,
+  run assign canc pre hold0 g sched = (Suspended d k, w) ->
   sync (eff assign canc (cancelled w)) (GYieldD d k) (consumed w) (own (seen w))
   = sync (eff assign canc (cancelled w)) g [] [].
 Proof.
-  intros assign canc pre g sched d k w H.
-  rewrite <- (run_sync assign canc (cancelled w) pre g sched); rewrite H; [reflexivity | apply agrees_self].
+  intros assign canc pre hold0 g sched d k w H.
+  rewrite <- (run_sync assign canc (cancelled w) pre hold0 g sched); rewrite H; [reflexivity | apply agrees_self].
 Qed.
 Print Assumptions suspended_prefix_of_sync.
 
 (** progress: the driver is suspended only on a Deferred that has not fired *)
-Theorem suspended_only_on_unfired : forall assign canc pre g sched d k w,
-  run assign canc pre g sched = (Suspended d k, w) -> ~ In d pre /\ ~ In (SFire d) sched.
+Theorem suspended_only_on_unfired : forall assign canc pre hold0 g sched d k w,
+  run assign canc pre hold0 g sched = (Suspended d k, w) -> ~ In d pre /\ ~ In (SFire d) sched.
 Proof.
-  intros assign canc pre g sched d k w H. pose proof (run_WF assign canc pre g sched) as [_ HW].
-  pose proof (run_fired assign canc pre g sched d) as Hf. rewrite H in HW, Hf. cbn [fst snd] in *.
+  intros assign canc pre hold0 g sched d k w H. pose proof (run_WF assign canc pre hold0 g sched) as [_ HW].
+  pose proof (run_fired assign canc pre hold0 g sched d) as Hf. rewrite H in HW, Hf. cbn [fst snd] in *.
   split; intros Hin; apply HW, Hf; [left | right]; exact Hin.
 Qed.
 Print Assumptions suspended_only_on_unfired.
 
 (** cancelling the returned Deferred while the function waits on D[d] cancels exactly D[d] — its canceller is
-    called, nothing else is — and the function is resumed with D[d]'s outcome *)
-Theorem cancel_cancels_exactly_awaited : forall assign canc d k w,
+    called, nothing else is — and the function is resumed with D[d]'s outcome (unless D[d] was fired while paused:
+    then [called] is set and Deferred.cancel() does nothing; the function keeps waiting for the unpause) *)
+Theorem cancel_cancels_exactly_awaited : forall assign canc d k w, mem d (held w) = false ->
   cancelled (snd (cancel assign canc (Suspended d k, w))) = d :: cancelled w /\
   cancel assign canc (Suspended d k, w) =
     drive assign canc (k (if mem d (consumed w) then Val VNone else cancel_outcome (canc d)))
-          (mkw (d :: fired w) (d :: cancelled w) (d :: consumed w) (Cancelled d :: seen w)).
+          (mkw (d :: fired w) (d :: cancelled w) (d :: consumed w) (Cancelled d :: seen w) (held w)).
 Proof. exact cancel_exactly. Qed.
 Print Assumptions cancel_cancels_exactly_awaited.
 
-Theorem each_deferred_cancelled_at_most_once : forall assign canc pre g sched,
-  NoDup (cancelled (snd (run assign canc pre g sched))).
+Theorem each_deferred_cancelled_at_most_once : forall assign canc pre hold0 g sched,
+  NoDup (cancelled (snd (run assign canc pre hold0 g sched))).
 Proof. exact run_cancel_nodup. Qed.
 Print Assumptions each_deferred_cancelled_at_most_once.
 
@@ -75,7 +76,7 @@ Example nontrivial_program :
   let s := SSeq (STry (SAwait 0) (SMark 7))
                 (SFinally (STry (SCall (SSeq (SLoop 2 (SAwait 1)) (SReturnValue 9))) (SMark 8)) (SSeq (SAwait 2) (SReturn 5))) in
   let assign := fun d => match d with 0 => Exc (EUser 3) | _ => Val (VInt (Z.of_nat d)) end in
-  let p := run assign (fun _ => CNothing) [2] (gen_of s) [SFire 0; SCancel; SFire 1] in
+  let p := run assign (fun _ => CNothing) [2] [0] (gen_of s) [SCancel; SFire 0; SCancel; SFire 1] in
   fst p = Finished (Val (VInt 5))
   /\ rev (seen (snd p)) = [SawExc (EUser 3); Mark 7; Cancelled 1; SawExc ECancelled; Mark 8; SawVal (VInt 2)]
   /\ cancelled (snd p) = [1].
